@@ -14,7 +14,7 @@ use vbase::{ensure, fail};
 use crate::family::{self, Fam, FamVisitor, G};
 use crate::model_ser::{cmp_output, to_model, SV};
 
-pub const RULE: &str = "cases are Rust values: (a) generated values of the 71-type family (incl. field/variant names that need escaping, nullable newtype payloads, strings written piecewise through collect_str with empty pieces) (integers of all widths, floats, strings, options, tuples, sequences, maps with string/integer/bool/char/enum keys, structs, all enum shapes, flatten, bytes, recursive trees) plus non-finite floats and invalid key kinds; (a2) DOM values in every representation the public API produces (the final heaps of C15 operation histories: arena-backed, shared, promoted, macro-/conversion-built, owned raw numbers), whose output must denote what the public read API reports, member for member in iteration order; (b) strings of every length 0..=200 with each escapable byte (quote, backslash, C0 controls, DEL, multi-byte) at every position 0..=130, materialised at every start offset 0..=64 of a heap buffer, ending exactly at a PROT_NONE guard page, and starting right after one; (c) random Unicode strings up to 70,000 bytes. Each value is written through to_string, to_vec, to_writer over Vec, BytesMut writers, BufferedWriter, io::BufWriter, &mut W and Box<W>, compact and pretty; the output must be UTF-8, accepted by the reference recogniser, its reference parse equal to the value's model (independent model serializer; string tokens checked for the escaping discipline; numbers by value), pretty == reindent(compact) byte for byte, all writers byte-identical. Fault enumeration: a writer that fails once n bytes were accepted, for sampled/all n in 0..len, direct and as inner writer of BufferedWriter / io::BufWriter, plus writers that accept at most k bytes per call: the call must return Err (never Ok, never panic) and the accepted bytes must be a prefix of the correct output. Non-trivial = value containing a string that needs an escape or is >= 32 bytes, or nesting >= 2; distinct by case encoding.";
+pub const RULE: &str = "cases are Rust values: (a) generated values of the 71-type family (incl. field/variant names that need escaping, nullable newtype payloads, strings written piecewise through collect_str with empty pieces) (integers of all widths, floats, strings, options, tuples, sequences, maps with string/integer/bool/char/enum keys, structs, all enum shapes, flatten, bytes, recursive trees) plus non-finite floats and invalid key kinds; (a3) serde_json::Value trees nested 20..=122 levels deep with two or more members per level; (a2) DOM values in every representation the public API produces (the final heaps of C15 operation histories: arena-backed, shared, promoted, macro-/conversion-built, owned raw numbers), whose output must denote what the public read API reports, member for member in iteration order; (b) strings of every length 0..=200 with each escapable byte (quote, backslash, C0 controls, DEL, multi-byte) at every position 0..=130, materialised at every start offset 0..=64 of a heap buffer, ending exactly at a PROT_NONE guard page, and starting right after one; (c) random Unicode strings up to 70,000 bytes. Each value is written through to_string, to_vec, to_writer over Vec, BytesMut writers, BufferedWriter, io::BufWriter, &mut W and Box<W>, compact and pretty; the output must be UTF-8, accepted by the reference recogniser, its reference parse equal to the value's model (independent model serializer; string tokens checked for the escaping discipline; numbers by value), pretty == reindent(compact) byte for byte, all writers byte-identical. Fault enumeration: a writer that fails once n bytes were accepted, for sampled/all n in 0..len, direct and as inner writer of BufferedWriter / io::BufWriter, plus writers that accept at most k bytes per call: the call must return Err (never Ok, never panic) and the accepted bytes must be a prefix of the correct output. Non-trivial = value containing a string that needs an escape or is >= 32 bytes, or nesting >= 2; distinct by case encoding.";
 pub const ASSUMPTIONS: &[&str] = &["serde's JSON data-model convention (as documented by serde_json) defines the value's model", "refjson parser and escaping rule", "Rust std float/integer parsing"];
 
 // ---- writers ------------------------------------------------------------------------------
@@ -322,6 +322,44 @@ pub fn oracle_special(case: &[u8], obs: &mut Obs) -> Result<(), Fail> {
             }
             check_value(&(D, [D, D]), "collect_str", obs, 32)
         }
+        12 => {
+            // a serialization that fails after part of the output was produced must not leave anything
+            // behind that shows up in the next call on this thread (scratch buffers, formatter state)
+            let bad = BTreeMap::from([((1u8, 2u8), 3u8)]);
+            struct FailsLate;
+            impl Serialize for FailsLate {
+                fn serialize<S: serde::Serializer>(&self, s: S) -> Result<S::Ok, S::Error> {
+                    use serde::ser::SerializeSeq;
+                    let mut q = s.serialize_seq(None)?;
+                    q.serialize_element(&"a\"b")?;
+                    q.serialize_element(&[1u8, 2])?;
+                    Err(serde::ser::Error::custom("late failure"))
+                }
+            }
+            let good = (vec![1u8, 2, 3], "x\"y", BTreeMap::from([("k", 1.5f64)]));
+            let want = "[[1,2,3],\"x\\\"y\",{\"k\":1.5}]";
+            for round in 0..3 {
+                ensure!(sonic_rs::to_string(&bad).is_err() && sonic_rs::to_string(&FailsLate).is_err(), "C05/after-error/accepts", "a failing value serialized without error");
+                ensure!(sonic_rs::to_string(&good).ok().as_deref() == Some(want), "C05/after-error/to_string", "round {round}: to_string after a failed to_string gives {:?}", sonic_rs::to_string(&good));
+                ensure!(sonic_rs::to_vec(&bad).is_err() && sonic_rs::to_vec(&FailsLate).is_err(), "C05/after-error/accepts", "a failing value serialized without error");
+                ensure!(sonic_rs::to_vec(&good).ok().as_deref() == Some(want.as_bytes()), "C05/after-error/to_vec", "round {round}: to_vec after a failed to_vec differs");
+                ensure!(sonic_rs::to_string_pretty(&FailsLate).is_err(), "C05/after-error/accepts", "a failing value serialized without error");
+                let p = sonic_rs::to_string_pretty(&good).map_err(|e| Fail::new("C05/after-error/pretty", format!("{e}")))?;
+                ensure!(p.as_bytes() == refjson::reindent(want.as_bytes()), "C05/after-error/pretty", "round {round}: to_string_pretty after a failed one gives {:?}", trunc(&p, 200));
+                ensure!(sonic_rs::to_lazyvalue(&bad).is_err() && sonic_rs::to_lazyvalue(&FailsLate).is_err(), "C05/after-error/accepts", "a failing value converted without error");
+                let l = sonic_rs::to_lazyvalue(&good).map_err(|e| Fail::new("C05/after-error/to_lazyvalue", format!("{e}")))?;
+                ensure!(sonic_rs::to_string(&l).ok().as_deref() == Some(want), "C05/after-error/to_lazyvalue", "round {round}: to_lazyvalue after a failed to_lazyvalue holds {:?}", sonic_rs::to_string(&l));
+                ensure!(sonic_rs::to_value(&bad).is_err() && sonic_rs::to_value(&FailsLate).is_err(), "C05/after-error/accepts", "a failing value converted without error");
+                let v = sonic_rs::to_value(&good).map_err(|e| Fail::new("C05/after-error/to_value", format!("{e}")))?;
+                ensure!(sonic_rs::to_string(&v).ok().as_deref() == Some(want), "C05/after-error/to_value", "round {round}: to_value after a failed to_value holds {:?}", sonic_rs::to_string(&v));
+                let mut sink = Vec::new();
+                ensure!(sonic_rs::to_writer(&mut sink, &FailsLate).is_err(), "C05/after-error/accepts", "a failing value written without error");
+                sink.clear();
+                sonic_rs::to_writer(&mut sink, &good).map_err(|e| Fail::new("C05/after-error/to_writer", format!("{e}")))?;
+                ensure!(sink == want.as_bytes(), "C05/after-error/to_writer", "round {round}: to_writer after a failed to_writer gives {:?}", show_bytes(&sink, 200));
+            }
+            Ok(())
+        }
         _ => Ok(()),
     }
 }
@@ -355,6 +393,15 @@ pub fn oracle_dom(case: &[u8], obs: &mut Obs) -> Result<(), Fail> {
     }
     obs.render = Some(log);
     Ok(())
+}
+
+/// deeply nested serializable values (a serde_json::Value read from a generated deep text)
+pub fn oracle_deep(case: &[u8], obs: &mut Obs) -> Result<(), Fail> {
+    let mut src = Src::new(case);
+    let text = vbase::gens::gen_deep(&mut src);
+    let Ok(v) = serde_json::from_slice::<serde_json::Value>(&text) else { return Ok(()) }; // beyond serde_json's own limit
+    obs.render = Some(trunc(&String::from_utf8_lossy(&text), 200));
+    check_value(&v, "serde_json::Value (deep)", obs, 8)
 }
 
 /// strings: case = [placement][offset][bytes...]
@@ -429,6 +476,7 @@ pub fn subs() -> Vec<Sub<'static>> {
         Sub { name: "special", oracle: &oracle_special, minimise_bytes: false },
         Sub { name: "strings", oracle: &oracle_string, minimise_bytes: false },
         Sub { name: "dom", oracle: &oracle_dom, minimise_bytes: false },
+        Sub { name: "deep", oracle: &oracle_deep, minimise_bytes: false },
     ]
 }
 
@@ -438,9 +486,10 @@ fn sub(name: &str) -> Sub<'static> {
 
 pub fn run(ctx: &Ctx) {
     ctx.search(&sub("dom"), "dom-histories", ctx.n(400_000, 4_000_000), 260, &|src: &mut Src| src.rest().to_vec());
+    ctx.search(&sub("deep"), "deep", ctx.n(4_000, 40_000), 64, &|src: &mut Src| src.rest().to_vec());
     let quick = ctx.quick();
     let s = sub("special");
-    ctx.cases(&s, &(0u8..12).map(|k| vec![k]).collect::<Vec<_>>());
+    ctx.cases(&s, &(0u8..13).map(|k| vec![k]).collect::<Vec<_>>());
 
     // (a) family values
     let s = sub("family");
